@@ -210,8 +210,14 @@ class _EvalInterp:
 def _split_interp(fi: FuncInfo):
     """prologue statements, the numel test, the two branches"""
     pro = []
-    for s in fi.node.body:
+    body = fi.node.body
+    for i, s in enumerate(body):
         if isinstance(s, ast.If) and "numel" in ast.unparse(s.test):
+            # the two formulas: the arms of the test, each followed by the rest of the function unless it returns
+            # (if/else and guard-clause spellings give the same two statement sequences)
+            rest = list(body[i + 1:])
+            ends = lambda b: bool(b) and isinstance(b[-1], (ast.Return, ast.Raise))
+            s._arms = (list(s.body) + ([] if ends(s.body) else rest), list(s.orelse) + ([] if ends(s.orelse) else rest))
             return pro, s
         pro.append(s)
     raise AnalysisError("C14-E: %s no longer chooses between two evaluation formulas by comparing numel(xq) and numel(x)" % fi.fq)
@@ -299,7 +305,7 @@ def _formulas(model: Model, E: RuleResult, Sx: RuleResult, D: RuleResult):
         # the test must compare the numbers of queries and knots (any orientation): both formulas are then interchangeable anyway
         expected = expect_fn(T_EXPECT)
         vals = []
-        for bi, body in enumerate((br.body, br.orelse)):
+        for bi, body in enumerate(br._arms):
             it = _EvalInterp(fi, roles, sides, fi.module.source)
             try:
                 yq = it.run(body)
@@ -432,18 +438,10 @@ def _modes(model: Model, X: RuleResult):
     s, var, rset = routed
     # handled by get_extrap_pos
     mode_p = gpos.params()[1]
-    handled = []
-    chain = [x for x in gpos.node.body if isinstance(x, ast.If)]
-    final_raises = False
-    if chain:
-        node = chain[0]
-        while True:
-            handled += _str_consts_compared(node.test, mode_p)
-            if len(node.orelse) == 1 and isinstance(node.orelse[0], ast.If):
-                node = node.orelse[0]
-            else:
-                final_raises = any(isinstance(r, ast.Raise) for r in node.orelse)
-                break
+    from ..model import mode_paths, OTHER_MODE, guard_chain
+    mp = mode_paths(gpos.node.body, mode_p)
+    handled = sorted(v for v, (_, end) in mp.items() if isinstance(v, str) and v != OTHER_MODE and end != "raise")
+    final_raises = mp[OTHER_MODE][1] == "raise"
     DOC_POS = {"mirror", "periodic", "bound"}
     if rset == set(handled) == DOC_POS and final_raises:
         X.ok(call.fq, "modes routed to the position map %s == modes it handles == documented {mirror, periodic, bound}; anything else raises" % sorted(rset))
@@ -458,35 +456,43 @@ def _modes(model: Model, X: RuleResult):
         X.bad(call, enclosing_stmt(pc), "get_extrap_pos must be called with (outside queries, mode, self._xmin, self._xmax)")
     # value modes: None / 'nan', number / 1-element tensor, callable, else raise
     mode_v = gval.params()[2]
-    chain = [x for x in gval.node.body if isinstance(x, ast.If)]
+    from ..model import decision_steps
+    steps = decision_steps(gval.node.body)
+
+    def kind_of(t):
+        if "is None" in t and "'nan'" in t:
+            return "nan"
+        if "isinstance(%s, int)" % mode_v in t and "isinstance(%s, float)" % mode_v in t and "torch.Tensor" in t:
+            return "number"
+        if "__call__" in t or "callable(" in t:
+            return "callable"
+        return "?" + t[:30]
     kinds = []
+    exits = {}
     final_raises = False
-    if chain:
-        node = chain[-1]
-        while True:
-            t = ast.unparse(node.test)
-            if "is None" in t and "'nan'" in t:
-                kinds.append("nan")
-            elif "isinstance(%s, int)" % mode_v in t and "isinstance(%s, float)" % mode_v in t and "torch.Tensor" in t:
-                kinds.append("number")
-            elif "__call__" in t or "callable(" in t:
-                kinds.append("callable")
-            else:
-                kinds.append("?" + t[:30])
-            if len(node.orelse) == 1 and isinstance(node.orelse[0], ast.If):
-                node = node.orelse[0]
-            else:
-                final_raises = any(isinstance(r, ast.Raise) for r in node.orelse)
-                break
+    pending = None
+    for k_, t_, arm in steps:
+        if k_ == "when":
+            kd = kind_of(ast.unparse(t_))
+            kinds.append(kd)
+            exits[kd] = [x for st_ in arm for x in ast.walk(st_) if isinstance(x, ast.Return)]
+        elif k_ == "require":
+            pending = kind_of(ast.unparse(t_))
+            kinds.append(pending)
+            final_raises = True                       # everything that is not `pending` (nor an earlier kind) raises
+        elif k_ == "do" and isinstance(arm[0], ast.Return) and pending is not None:
+            exits[pending] = [arm[0]]
+        elif k_ == "do" and isinstance(arm[0], ast.Raise):
+            final_raises = True
     if kinds == ["nan", "number", "callable"] and final_raises:
         X.ok(gval.fq, "value modes handled: None/'nan', number or 1-element tensor, callable; anything else raises")
     else:
         X.bad(gval, gval.node, "get_extrap_val must handle exactly None/'nan', numbers, callables and raise otherwise (found %s, final raise %s)" % (kinds, final_raises))
     # nan fill really is nan; constant fill adds the constant; callable is applied to the outside positions
-    srcv = ast.unparse(gval.node)
-    rets = [r for r in ast.walk(gval.node) if isinstance(r, ast.Return)]
-    okv = (len(rets) == 3 and "float('nan')" in ast.unparse(rets[0].value) and ast.unparse(rets[1].value).endswith("+ %s" % mode_v)
-           and ast.unparse(rets[2].value).startswith("%s(%s)" % (mode_v, gval.params()[0])))
+    def one(kd):
+        r_ = exits.get(kd, [])
+        return ast.unparse(r_[0].value) if len(r_) == 1 and r_[0].value is not None else ""
+    okv = ("float('nan')" in one("nan") and one("number").endswith("+ %s" % mode_v) and one("callable").startswith("%s(%s)" % (mode_v, gval.params()[0])))
     if okv:
         X.ok(gval.fq, "nan mode multiplies by float('nan'), constant mode adds the constant to zeros, callable mode is applied to the outside positions")
     else:
@@ -510,17 +516,9 @@ def _modes(model: Model, X: RuleResult):
         if isinstance(s_, ast.Assign) and isinstance(s_.value, ast.List) and all(isinstance(e, ast.Constant) and isinstance(e.value, str) for e in s_.value.elts) and s_.value.elts:
             lst = [e.value for e in s_.value.elts]
     gm = model.func(I1D, "_get_spline_mat_inv")
-    branches = []
-    for s_ in gm.node.body:
-        if isinstance(s_, ast.If) and "bc_type" in ast.unparse(s_.test):
-            node = s_
-            while True:
-                branches += _str_consts_compared(node.test, gm.params()[1])
-                if len(node.orelse) == 1 and isinstance(node.orelse[0], ast.If):
-                    node = node.orelse[0]
-                else:
-                    fr_ = any(isinstance(r, ast.Raise) for r in node.orelse)
-                    break
+    mpb = mode_paths(gm.node.body, gm.params()[1])
+    branches = sorted(v for v, (_, end) in mpb.items() if isinstance(v, str) and v != OTHER_MODE and end != "raise")
+    fr_ = mpb[OTHER_MODE][1] == "raise"
     DOC_BC = {"natural", "clamped", "not-a-knot", "periodic"}
     if set(lst) == set(branches) == DOC_BC and fr_:
         X.ok(init.fq, "accepted boundary conditions == branches of the slope system == documented %s; unknown raises" % sorted(DOC_BC))
@@ -573,16 +571,14 @@ def _posmap(model: Model, M: RuleResult):
     else:
         M.bad(g, ret[0], "normalisation %r and de-normalisation %r are not inverse maps of [xmin, xmax] <-> [0, 1]" % (u, back))
     # branches: decided by a case split on the sign of u and the parity of the integer part m of |u| = m + f (0 <= f < 1)
-    node = chain[0]
+    from ..model import mode_paths, OTHER_MODE
+    mpp = mode_paths(body, mode)
+    common = [s_ for s_ in body if not isinstance(s_, ast.If)]
     seen = {}
-    while True:
-        modes = _str_consts_compared(node.test, mode)
-        for m in modes:
-            seen[m] = node.body
-        if len(node.orelse) == 1 and isinstance(node.orelse[0], ast.If):
-            node = node.orelse[0]
-        else:
-            break
+    for m_, (stm, end) in mpp.items():
+        if isinstance(m_, str) and m_ != OTHER_MODE and end != "raise":
+            # the statements specific to this mode: what runs for it minus the statements every mode shares
+            seen[m_] = [s_ for s_ in stm if not any(s_ is c_ for c_ in common)]
     pre = [s_ for s_ in body if isinstance(s_, ast.Assign) and s_ is not first[0] and body.index(s_) < body.index(chain[0])]
 
     def interpret(block, sgn: int, parity: int):
